@@ -196,6 +196,11 @@ def main(ctx):
         many = [{'type': 'sysex', 'data': [i % 128, (i // 128) % 128], 'time': 0} for i in range(1500)]
         ctx.check({'kind': 'roundtrip', 'msgs': many, 'fmt': fmt}, sample=False)
         ctx.check({'kind': 'roundtrip', 'msgs': [], 'fmt': fmt})
+        for ln in range(0, 8):
+            one = {'type': 'sysex', 'data': list(range(ln)), 'time': 0}
+            ctx.check({'kind': 'roundtrip', 'msgs': [one], 'fmt': fmt}, sample=False)
+            ctx.check({'kind': 'roundtrip', 'msgs': [R.default_msg('clock'), one], 'fmt': fmt}, sample=False)
+            ctx.check({'kind': 'roundtrip', 'msgs': [one, one], 'fmt': fmt}, sample=False)
         for stale in ('bin', 'text'):
             ctx.check({'kind': 'roundtrip', 'msgs': [], 'fmt': fmt, 'stale': stale})
             ctx.check({'kind': 'roundtrip', 'msgs': [R.default_msg('note_on')], 'fmt': fmt, 'stale': stale})
